@@ -48,6 +48,8 @@ struct Ctx {
     /// end state (file bytes) of every history already executed
     memo: Mutex<HashMap<Hist, Option<Vec<u8>>>>,
     executed: AtomicU64,
+    /// the command's stdout is a (pseudo-)terminal, as when it is typed at a prompt
+    stdout_tty: bool,
 }
 
 /// run the last generation of `h` on top of the memoised parent state; check the step and state invariants
@@ -77,10 +79,11 @@ fn step(ctx: &Ctx, h: &Hist) -> Result<Option<Vec<u8>>, String> {
             sc.write("keys.txt", b);
         }
     }
-    let out = proc::run(
-        &Cmd::new(&["key", "generate", "-o", "keys.txt", "--env-pass"]).env("KESTREL_PASSWORD", PASSWORDS[pi as usize]).stdin(format!("{}\n", NAMES[ni as usize]).as_bytes()),
-        &sc.0,
-    );
+    let mut gcmd = Cmd::new(&["key", "generate", "-o", "keys.txt", "--env-pass"]).env("KESTREL_PASSWORD", PASSWORDS[pi as usize]).stdin(format!("{}\n", NAMES[ni as usize]).as_bytes());
+    if ctx.stdout_tty {
+        gcmd.pty = Some(proc::PtySpec { typed: vec![], controlling: false, stdin_is_tty: false, stdout_is_tty: true });
+    }
+    let out = proc::run(&gcmd, &sc.0);
     out.well_behaved()?;
     if !out.ok() {
         return Err(format!("key generate exited {:?}: {}", out.code, out.summary()));
@@ -225,7 +228,7 @@ impl Model for M {
                     let gens: Vec<String> = s.gens.iter().map(|&(n, p)| format!("generate name={:?} password={:?}", NAMES[n as usize], PASSWORDS[p as usize])).collect();
                     ctx.rep.violation(
                         &format!("history/{}", e.split(&['(', ':'][..]).next().unwrap_or("").trim().chars().filter(|c| !c.is_ascii_digit()).take(60).collect::<String>()),
-                        json!({"kind":"history","init":s.init,"gens":s.gens.iter().map(|g| json!([g.0,g.1])).collect::<Vec<_>>()}),
+                        json!({"kind":"history","init":s.init,"stdout_tty":ctx.stdout_tty,"gens":s.gens.iter().map(|g| json!([g.0,g.1])).collect::<Vec<_>>()}),
                         format!("initial file '{}', then {:?}: {}", ctx.inits[s.init as usize].0, gens, e),
                     );
                     false
@@ -357,12 +360,88 @@ fn limit_names(rep: &Report) {
     rep.extra("limit_names", json!(names.len()));
 }
 
+/// "Every key generated so far is usable": also when the random source happens to deliver a private key of a particular
+/// value. The LD_PRELOAD shim answers one getrandom call with chosen bytes; when that call was the one that became the
+/// private key (REF unlocks the new entry to exactly those bytes), the key must work: extract-pub prints its PublicKey
+/// line's key and it serves as a sender.
+fn steered_keys(rep: &Report) {
+    use rayon::prelude::*;
+    let seed = rep.seed;
+    let mut xz = derive32(seed, "c14-xor-zero");
+    let x = xz.iter().fold(0u8, |a, b| a ^ b);
+    xz[31] ^= x;
+    let mut one = [0u8; 32];
+    one[0] = 1;
+    let mut sumz = derive32(seed, "c14-sum-zero");
+    let sm = sumz.iter().fold(0u8, |a, b| a.wrapping_add(*b));
+    sumz[31] = sumz[31].wrapping_sub(sm);
+    let specials: Vec<(&str, [u8; 32])> = vec![("all-zero", [0u8; 32]), ("bytes-xor-to-zero", xz), ("bytes-sum-to-zero", sumz), ("all-ones", [0xff; 32]), ("integer-1", one), ("all-bytes-0x42", [0x42; 32])];
+    let rcpt = Party::new(seed, "rcpt", "rpw");
+    let steered = AtomicU64::new(0);
+    specials.par_iter().for_each(|(name, val)| {
+        rep.eval(1);
+        rep.nontrivial(format!("steered-key-{}", name).as_bytes());
+        let mut hit = false;
+        for k in 1..=4usize {
+            let sc = Scratch::new();
+            let mut cmd = Cmd::new(&["key", "generate", "-o", "kr.txt", "--env-pass"]).env("KESTREL_PASSWORD", "pw").env("KV_RNG_HEX", &hx(val)).stdin(b"me\n");
+            for (a, b) in crate::c07::rng_env("first-hex", k, None) {
+                cmd = cmd.env(&a, &b);
+            }
+            let out = proc::run(&cmd, &sc.0);
+            if !out.ok() {
+                continue;
+            }
+            let text = String::from_utf8_lossy(&sc.read("kr.txt").unwrap_or_default()).to_string();
+            let pk_line = text.lines().find_map(|l| l.strip_prefix("PublicKey = ")).map(|x| x.trim().to_string());
+            let sk_line = text.lines().find_map(|l| l.strip_prefix("PrivateKey = ")).map(|x| x.trim().to_string());
+            let (pk_line, sk_line) = match (pk_line, sk_line) {
+                (Some(a), Some(b)) => (a, b),
+                _ => continue,
+            };
+            let sk = match r::b64_decode(&sk_line).and_then(|b| r::unlock_key(&b, b"pw")) {
+                Some(k) => k,
+                None => continue,
+            };
+            if sk != *val {
+                continue; // this call did not become the private key
+            }
+            hit = true;
+            steered.fetch_add(1, Ordering::Relaxed);
+            let case = json!({"kind":"steered","name":name,"call":k});
+            let fail = |what: String| rep.violation("steered-key/unusable", case.clone(), format!("the random source delivered the private key '{}' ({}): {}", name, hx(val), what));
+            if r::decode_pk(&pk_line) != Some(r::x25519_base(val)) {
+                fail("the PublicKey line written is not its X25519 public key".into());
+                break;
+            }
+            let o = proc::run(&Cmd::new(&["key", "extract-pub", &sk_line, "--env-pass"]).env("KESTREL_PASSWORD", "pw"), &sc.0);
+            if o.well_behaved().is_err() || !o.ok() || !String::from_utf8_lossy(&o.stdout).contains(&pk_line) {
+                fail(format!("extract-pub with its own password does not print its public key: {}", o.summary()));
+                break;
+            }
+            sc.write("kr2.txt", format!("{}\n{}", text, rcpt.entry(false)).as_bytes());
+            sc.write("plain.bin", b"steered");
+            let o = proc::run(&Cmd::new(&["encrypt", "plain.bin", "-t", "rcpt", "-f", "me", "-k", "kr2.txt", "-o", "out.ktl", "--env-pass"]).env("KESTREL_PASSWORD", "pw"), &sc.0);
+            let good = o.ok() && matches!(sc.read("out.ktl").map(|f| r::read_key_file(&rcpt.sk, &f)), Some(Ok(k)) if k.parsed.plaintext == b"steered" && k.sender == r::x25519_base(val));
+            if o.well_behaved().is_err() || !good {
+                fail(format!("it cannot be used as a sender with its own password: {}", o.summary()));
+            }
+            break;
+        }
+        if !hit {
+            rep.extra(&format!("steered_key_{}_not_steered", name), json!("none of the first four getrandom calls became the private key: not judged"));
+        }
+    });
+    rep.extra("steered_private_keys", json!({"values":specials.len(),"steered":steered.load(Ordering::Relaxed)}));
+}
+
 pub fn run(rep: &'static Report) {
     rep.set_rule("E-GRAPH over histories: breadth-first search (stateright) over initial keyring states x all sequences of <=2 (quick) / <=3 (thorough) `kestrel key generate -o F --env-pass` commands with distinct names from a 7-name alphabet (non-ASCII, with a space, a suffix of another, typed with surrounding whitespace, two names containing '=' with a common prefix) and 2 passwords; each state's last command is executed by the real CLI on the memoised file of its parent history, and the state invariant (prefix preserved, parses for the real parser and for REF, every generated key present, unlocks under its own password to the private key of its PublicKey, pre-existing entries kept) is checked. distinct non-trivial = histories with at least one generation");
     rep.rule_add("Password channels: two generations into one file, 8 passwords with blanks at their ends x every ordered pair of {environment, controlling terminal, stdin terminal}; REF unlocks each key with exactly the password given.");
+    rep.rule_add("One-generation histories from every initial state with stdout on a terminal; generated private keys steered by value through the random source (all-zero, XOR-zero, all ones, ...).");
     rep.rule_add("in-process sequence of 24/72 generations in one thread; keyring behind a symbolic link as an initial state.");
     rep.assume("CLI runs use the real CSPRNG, so bytes differ between runs; a violating history is executed twice and the verdict must not flip");
-    let ctx = Arc::new(Ctx { rep, seed: rep.seed, max_gens: rep.tier.pick(2, 3), inits: initial_states(rep.seed), memo: Mutex::new(HashMap::new()), executed: AtomicU64::new(0) });
+    let ctx = Arc::new(Ctx { rep, seed: rep.seed, max_gens: rep.tier.pick(2, 3), inits: initial_states(rep.seed), memo: Mutex::new(HashMap::new()), executed: AtomicU64::new(0), stdout_tty: false });
     let _ = ctx.seed;
     let st = crate::search::bfs_levels(&M(ctx.clone()));
     for (name, s) in &st.violating {
@@ -378,13 +457,30 @@ pub fn run(rep: &'static Report) {
     rep.add_distinct(states.saturating_sub(ctx.inits.len() as u64));
     rep.extra("histories", json!({"initial_states":ctx.inits.iter().map(|i| i.0).collect::<Vec<_>>(),"max_generations":ctx.max_gens,"names":NAMES,"passwords":PASSWORDS,"states":states}));
     rep.sample(json!({"init":"keyring-without-trailing-newline","history":["generate name='k1' password=''","generate name='Zo\u{eb}' password='p\u{e4}'"],"expect":"old bytes are a prefix; 4 entries; both new keys unlock under their own passwords"}));
+    // the same search one level deep from every initial state with the command's stdout on a terminal
+    {
+        let ctx2 = Arc::new(Ctx { rep, seed: rep.seed, max_gens: 1, inits: initial_states(rep.seed), memo: Mutex::new(HashMap::new()), executed: AtomicU64::new(0), stdout_tty: true });
+        let st2 = crate::search::bfs_levels(&M(ctx2.clone()));
+        rep.states.fetch_add(st2.states, Ordering::Relaxed);
+        rep.transitions.fetch_add(st2.transitions, Ordering::Relaxed);
+        let ex2 = ctx2.executed.load(Ordering::Relaxed);
+        rep.traces_validated.fetch_add(ex2, Ordering::Relaxed);
+        rep.eval(ex2);
+        rep.add_distinct(st2.states.saturating_sub(ctx2.inits.len() as u64));
+        rep.extra("histories_with_stdout_on_a_terminal", json!({"max_generations":1,"states":st2.states}));
+    }
     in_process_sequence(rep);
     limit_names(rep);
+    steered_keys(rep);
     crate::chan::generate(rep, "C14");
     rep.set_exhaustive(true);
 }
 
 pub fn replay(rep: &'static Report, case: &Value) {
+    if case["kind"] == "steered" {
+        steered_keys(rep);
+        return;
+    }
     if case["kind"] == "chan" {
         println!("  re-running the password-channel part");
         crate::chan::generate(rep, "C14");
@@ -396,7 +492,7 @@ pub fn replay(rep: &'static Report, case: &Value) {
         return;
     }
     let h = Hist { init: case["init"].as_u64().unwrap() as u8, gens: case["gens"].as_array().unwrap().iter().map(|g| (g[0].as_u64().unwrap() as u8, g[1].as_u64().unwrap() as u8)).collect() };
-    let ctx = Ctx { rep, seed: rep.seed, max_gens: 9, inits: initial_states(rep.seed), memo: Mutex::new(HashMap::new()), executed: AtomicU64::new(0) };
+    let ctx = Ctx { rep, seed: rep.seed, max_gens: 9, inits: initial_states(rep.seed), memo: Mutex::new(HashMap::new()), executed: AtomicU64::new(0), stdout_tty: case["stdout_tty"].as_bool().unwrap_or(false) };
     for n in 0..=h.gens.len() {
         let p = Hist { init: h.init, gens: h.gens[..n].to_vec() };
         match step(&ctx, &p) {
